@@ -5,12 +5,13 @@ from plasTeX.Packages import report
 def ProcessOptions(options, document): # type: ignore
     report.ProcessOptions(options, document)
     document.context['thesection'].format = '${section}'
-    document.context['theindex'].counter = 'section'
-    document.context['theindex'].level = Environment.SECTION_LEVEL
-    document.context['printindex'].counter = 'section'
-    document.context['printindex'].level = Command.SECTION_LEVEL
-    document.context['bibliography'].counter = 'section'
-    document.context['bibliography'].level = Command.SECTION_LEVEL
+    # These classes are shared by every document in the interpreter:
+    # give this document its own variants instead of changing them
+    for name in ['theindex', 'printindex', 'bibliography']:
+        base = document.context[name]
+        document.context[name] = type(base.__name__, (base,),
+            {'counter': 'section', 'level': Command.SECTION_LEVEL,
+             '__module__': base.__module__})
 
 class appendix(Command): # type: ignore
 
